@@ -3,6 +3,7 @@ arbitrary invariant-satisfying state (serves C01: PaVeBa family + Auer; C05: VOG
 from __future__ import annotations
 
 import itertools
+import math
 from fractions import Fraction
 
 import numpy as np
@@ -175,6 +176,11 @@ def induct_task(cls_name, ctype, cone, W, N, prop, tier, base_only=False, rounds
                     [zand([dotz(r, [muz[q][k] - muz[p][k] - s105[k] for k in range(m)]) >= 0 for r in Wq])
                      for p in P2 for q in P2 if q != p])
             for name, cl in claims.items():
+                if base_only and rounds > 1 and name[:2] in ("J3", "K3"):
+                    # history mode decides the guarantee itself (J1/J2 resp. K1/K2 and the consequent) on reachable
+                    # histories; a breach of the auxiliary invariant is followed further instead of being reported (its
+                    # replay could not reproduce anything: the guarantee fails only a round later, if at all)
+                    continue
                 mdl = ctx.prove(name, cl)
                 if mdl is not None:
                     initial = len(state["pre"][0]) == N
@@ -235,6 +241,7 @@ def _candidate(ex, ctx, name, claim, hist, mu, cls_name, ctype, cone, W, alpha, 
                              z3.Implies(z3.Not(v), A.sphere_cov_def(ctx, W, regs[i], regs[j], s, False))]
         return defs
     bounds = [eps.e >= Fraction(1, 16), eps.e <= 2]
+    sphere_in, cube_in = [], []
     muz_ = zs(mu)
     for T_, regs_ in hist:
         for i, r in enumerate(regs_):
@@ -246,13 +253,15 @@ def _candidate(ex, ctx, name, claim, hist, mu, cls_name, ctype, cone, W, alpha, 
                           [sym.to_z3(r.alpha) >= Fraction(1, 8), sym.to_z3(r.alpha) <= 4]
                 # truths inside the realised spheres (all designs: harmless for inactive ones)
                 d_ = [muz_[i][k] - zs(r.center)[k] for k in range(m)]
-                bounds.append(sum((x * x for x in d_), sym.rv(0)) <= sym.to_z3(r.alpha) * sym.to_z3(r.alpha))
+                sphere_in.append(sum((x * x for x in d_), sym.rv(0)) <= sym.to_z3(r.alpha) * sym.to_z3(r.alpha))
+                q_ = sym.rv(Fraction(int(1000 / math.sqrt(m)) - 5, 1000))   # inscribed cube: linear, sufficient
+                cube_in.append(zand([z3.And(x <= q_ * sym.to_z3(r.alpha), -x <= q_ * sym.to_z3(r.alpha)) for x in d_]))
     mdl = None
     for linear in (True, False):   # linear sufficient certificates first (LRA), then Farkas certificates
         A.LINEAR = linear
         try:
             defs = build_defs()
-            mdl = ctx.satisfiable([z3.Not(claim)] + defs + bounds, timeout_ms=60000)
+            mdl = ctx.satisfiable([z3.Not(claim)] + defs + bounds + (cube_in if linear else sphere_in), timeout_ms=60000)
         except Inconclusive:
             mdl = None
             if not linear:
